@@ -185,7 +185,7 @@ def rule_bootstrap_exchange(ctx, res):
     ok = len(sites) >= 2 and all(s.body.path == run.path for s in sites)
     res.check(ok, 'WHO', hm, 'handle_message is called only from the bootstrap task (floor 2 sites)', detail='%s' % sites)
     # its arguments are the payload of `receivers.next().await` (FuturesUnordered<Responded>)
-    s = Sym(run, max_paths=200000)
+    s = Sym(run, max_paths=200000, merge_loop_exits=True)
     s.run()
     res.paths += len(s.paths)
     okf = True
